@@ -275,99 +275,42 @@ func runC04(c *Ctx) {
 		}
 	}
 	r.Check(okT, "R4.3", "ReadWriter.Write truncation", c.Pos(wr.Pos()), "v2: removeEmptyBytes(full buffer); v1: full buffer", "Write does not return the zero-truncated full-size buffer exactly for v2 (payload is "+got+")")
+	var inlineStrip *ssa.Slice // pkg/frame: the strip loop written out in Reader.Read (no removeEmptyBytes helper)
 	for _, pk := range []string{"pkg/message", "pkg/frame"} {
-		fn := c.Fn(pk, "removeEmptyBytes")
+		fn := c.FnOpt(pk, "removeEmptyBytes")
+		var buf ssa.Value
+		var results []*ssa.Slice
+		key := pk + " removeEmptyBytes"
+		if fn != nil {
+			buf = fn.Params[0]
+			for _, ret := range retInstrs(fn) {
+				if sl, ok := ret.Results[0].(*ssa.Slice); ok {
+					results = append(results, sl)
+				}
+			}
+		} else if pk == "pkg/frame" {
+			// in line: a prefix p[:end] of the payload, end coming out of a loop, stored back as the payload
+			if rd := c.FnOpt("pkg/frame", "Reader.Read"); rd != nil {
+				for _, in := range allInstrs(rd) {
+					st, ok := in.(*ssa.Store)
+					if !ok {
+						continue
+					}
+					sl, ok := st.Val.(*ssa.Slice)
+					if f, _ := fieldOfAddr(st.Addr); !ok || f == nil || f.Name() != "Payload" || sl.Low != nil || sl.High == nil {
+						continue
+					}
+					fn, buf, results, inlineStrip = rd, sl.X, []*ssa.Slice{sl}, sl
+					key = pk + " removeEmptyBytes (in line in Reader.Read)"
+				}
+			}
+		}
 		if fn == nil {
+			c.Fn(pk, "removeEmptyBytes") // reports the missing anchor
 			continue
 		}
-		// offset-normalised loop model: loop variable v (decremented by one), returned high bound v+d, loop
-		// continues while v > F, byte tested at index v+e. Floor of one byte <=> F+d == 1; last byte <=> e == d-1.
-		var v *ssa.Phi
-		var dec ssa.Instruction
-		for _, in := range allInstrs(fn) {
-			if p, ok := in.(*ssa.Phi); ok {
-				for _, e := range p.Edges {
-					if b, ok := e.(*ssa.BinOp); ok && b.Op == token.SUB && b.X == ssa.Value(p) {
-						if one, isOne := constInt(b.Y); isOne && one == 1 {
-							v, dec = p, b
-						}
-					}
-				}
-			}
-		}
-		F, d, e := int64(-99), int64(-99), int64(-99)
-		contOnZero := false
-		if v != nil {
-			for _, iff := range ifsIn(fn) {
-				b, ok := iff.Cond.(*ssa.BinOp)
-				if !ok {
-					continue
-				}
-				if k, isK := constInt(b.Y); isK && b.X == ssa.Value(v) {
-					switch b.Op {
-					case token.GTR:
-						F = k
-					case token.GEQ:
-						F = k - 1
-					}
-				}
-				// zero test on buf[v+e]
-				var ld *ssa.UnOp
-				var other ssa.Value
-				if u, isU := b.X.(*ssa.UnOp); isU {
-					ld, other = u, b.Y
-				} else if u, isU := b.Y.(*ssa.UnOp); isU {
-					ld, other = u, b.X
-				}
-				if ld != nil && (b.Op == token.EQL || b.Op == token.NEQ) {
-					if z, isZ := constInt(other); isZ && z == 0 {
-						if ia, isIA := ld.X.(*ssa.IndexAddr); isIA && ia.X == ssa.Value(fn.Params[0]) {
-							if ia.Index == ssa.Value(v) {
-								e = 0
-							} else if sb, isS := ia.Index.(*ssa.BinOp); isS && sb.Op == token.SUB && sb.X == ssa.Value(v) {
-								if one, isOne := constInt(sb.Y); isOne {
-									e = -one
-								}
-							}
-							if tb, _, hit := succWhen(iff, "("+ex(ld)+" == 0)"); hit && edgeMustPass(fn, edge{iff.Block(), tb}, dec.Block()) {
-								contOnZero = true
-							}
-						}
-					}
-				}
-			}
-			for _, ret := range retInstrs(fn) {
-				if sl, ok := ret.Results[0].(*ssa.Slice); ok && sl.X == ssa.Value(fn.Params[0]) && sl.Low == nil {
-					if sl.High == ssa.Value(v) {
-						d = 0
-					} else if ab, isA := sl.High.(*ssa.BinOp); isA && ab.Op == token.ADD && ab.X == ssa.Value(v) {
-						if one, isOne := constInt(ab.Y); isOne {
-							d = one
-						}
-					}
-				}
-			}
-		}
-		floor := v != nil && F+d == 1
-		zero := v != nil && e == d-1 && contOnZero
-		okRet := d >= 0
-		// the scan starts at the end of the buffer: the loop variable enters the loop as len(buf)-d and from nowhere else
-		// (a preceding coarser scan, e.g. eight bytes at a time, can pass the one-byte floor)
-		if v != nil {
-			for _, ed := range v.Edges {
-				if ed == ssa.Value(dec.(*ssa.BinOp)) {
-					continue
-				}
-				want := "len(arg0)"
-				if d > 0 {
-					want = fmt.Sprintf("(len(arg0) - %d)", d)
-				}
-				if ex(ed) != want {
-					floor = false
-				}
-			}
-		}
-		r.Check(floor && zero && okRet, "R4.3", pk+" removeEmptyBytes", c.Pos(fn.Pos()), "strips trailing 0x00 while more than one byte remains", fmt.Sprintf("removeEmptyBytes shape wrong (one-byte floor: %v, strips exactly while the last byte is 0: %v, returns a prefix of its argument: %v): payloads could be truncated to zero bytes or non-zero bytes stripped", floor, zero, okRet))
+		floor, zero, okRet := stripLoopShape(fn, buf, results)
+		r.Check(floor && zero && okRet, "R4.3", key, c.Pos(fn.Pos()), "strips trailing 0x00 while more than one byte remains", fmt.Sprintf("removeEmptyBytes shape wrong (one-byte floor: %v, strips exactly while the last byte is 0: %v, returns a prefix of its argument: %v): payloads could be truncated to zero bytes or non-zero bytes stripped", floor, zero, okRet))
 	}
 	if fn := c.FnOpt("pkg/frame", "hasEmptyBytes"); fn == nil {
 		// the test in line: in Reader.Read the re-truncation (removeEmptyBytes) is guarded by `len(p) > 1` and
@@ -377,6 +320,12 @@ func runC04(c *Ctx) {
 			for _, ci := range callsNamed(rd, "frame.removeEmptyBytes") {
 				pv := ex(ci.Common().Args[0])
 				if condTrueAt(rd, "(len("+pv+") > 1)", ci.Block()) && condTrueAt(rd, "("+pv+"[(len("+pv+") - 1)] == 0)", ci.Block()) {
+					okIn = true
+				}
+			}
+			if inlineStrip != nil {
+				pv := ex(inlineStrip.X)
+				if condTrueAt(rd, "(len("+pv+") > 1)", inlineStrip.Block()) && condTrueAt(rd, "("+pv+"[(len("+pv+") - 1)] == 0)", inlineStrip.Block()) {
 					okIn = true
 				}
 			}
@@ -476,6 +425,8 @@ func runC04(c *Ctx) {
 
 	ruleStrings(c, "R4.5")
 	ruleValueCodecs(c, "R4.6")
+	ruleCodecCaches(c, "R4.7")
+	ruleCodecNoSharedWrites(c, "R4.8", "C04: decoding / encoding one message must not depend on another call using the same codec")
 	_ = types.Typ
 }
 
@@ -506,6 +457,13 @@ func ruleStrings(c *Ctx, rule string) {
 				if ex(x.Results[0]) == "int(arg2.arrayLength)" {
 					adv = true
 				}
+			}
+		}
+		// form-independent reading of the scan loop: the loop around the end index is left only because the index
+		// reached arrayLength or because the byte at the index is NUL (whatever the loop form: condition, break, …)
+		if conv {
+			if b2, n2, other := scanLoopExits(rv); other == "" {
+				bound, nul = b2, n2
 			}
 		}
 		r.Check(bound && nul && conv && adv, rule, "readValue string", c.Pos(rv.Pos()), "bounded scan to NUL, consumes arrayLength",
@@ -720,4 +678,169 @@ func ruleEncodeBuffer(c *Ctx, rule string) {
 		}
 	}
 	r.Check(shared == "", rule, "ReadWriter.Write buffer ownership", c.Pos(wr.Pos()), "every encode target is a slice of the per-call allocation", shared)
+}
+
+// scanLoopExits: in readValue, the loop whose induction variable is the High bound of the buf[:end] slice that is
+// converted to string. Classifies every edge that leaves the loop: bound (end reached arrayLength), NUL (the byte at
+// end is zero); anything else is reported in other.
+func scanLoopExits(rv *ssa.Function) (bound, nul bool, other string) {
+	var end *ssa.Phi
+	for _, in := range allInstrs(rv) {
+		if cv, ok := in.(*ssa.Convert); ok && typeStr(cv.Type()) == "string" {
+			if sl, ok := cv.X.(*ssa.Slice); ok && sl.High != nil {
+				if p, ok := sl.High.(*ssa.Phi); ok {
+					end = p
+				}
+			}
+		}
+	}
+	if end == nil {
+		return false, false, "no loop-carried end index"
+	}
+	head := end.Block()
+	inScc := map[*ssa.BasicBlock]bool{}
+	fromHead := reachFrom(head, nil, nil)
+	for _, b := range rv.Blocks {
+		if (b == head || fromHead[b]) && (b == head || reachFrom(b, nil, nil)[head]) {
+			inScc[b] = true
+		}
+	}
+	if !inScc[head] || len(inScc) < 2 {
+		return false, false, "end index is not a loop variable"
+	}
+	// the increment: every back edge value is end+1
+	for i, e := range end.Edges {
+		if !inScc[head.Preds[i]] {
+			continue
+		}
+		if b, ok := e.(*ssa.BinOp); !ok || b.Op != token.ADD || b.X != ssa.Value(end) || ex(b.Y) != "1" {
+			return false, false, "the end index does not advance by one"
+		}
+	}
+	isEnd := func(v ssa.Value) bool { return v == ssa.Value(end) }
+	for b := range inScc {
+		iff := blockIf(b)
+		if iff == nil {
+			continue
+		}
+		for si, s := range b.Succs {
+			if inScc[s] {
+				continue
+			}
+			cond, neg := stripNot(iff.Cond)
+			taken := si == 0
+			if neg {
+				taken = !taken
+			}
+			bo, ok := cond.(*ssa.BinOp)
+			if !ok {
+				return bound, nul, "loop left under " + ex(iff.Cond)
+			}
+			x, y, op := bo.X, bo.Y, bo.Op
+			lenS := "int(arg2.arrayLength)"
+			switch {
+			case isEnd(x) && ex(y) == lenS && ((op == token.LSS && !taken) || (op == token.GEQ && taken) || (op == token.EQL && taken) || (op == token.NEQ && !taken)):
+				bound = true
+			case isEnd(y) && ex(x) == lenS && ((op == token.GTR && !taken) || (op == token.LEQ && taken) || (op == token.EQL && taken) || (op == token.NEQ && !taken)):
+				bound = true
+			case (op == token.EQL && taken || op == token.NEQ && !taken) && (ex(y) == "0" && ex(x) == "arg1["+ex(end)+"]" || ex(x) == "0" && ex(y) == "arg1["+ex(end)+"]"):
+				nul = true
+			default:
+				return bound, nul, "loop left under " + ex(iff.Cond)
+			}
+		}
+	}
+	return bound, nul, ""
+}
+
+// stripLoopShape: the trailing-zero strip loop over buf in fn whose result is one of the given prefixes buf[:high].
+func stripLoopShape(fn *ssa.Function, buf ssa.Value, results []*ssa.Slice) (floor, zero, okRet bool) {
+	// offset-normalised loop model: loop variable v (decremented by one), returned high bound v+d, loop
+	// continues while v > F, byte tested at index v+e. Floor of one byte <=> F+d == 1; last byte <=> e == d-1.
+	var v *ssa.Phi
+	var dec ssa.Instruction
+	for _, in := range allInstrs(fn) {
+		if p, ok := in.(*ssa.Phi); ok {
+			for _, e := range p.Edges {
+				if b, ok := e.(*ssa.BinOp); ok && b.Op == token.SUB && b.X == ssa.Value(p) {
+					if one, isOne := constInt(b.Y); isOne && one == 1 {
+						v, dec = p, b
+					}
+				}
+			}
+		}
+	}
+	F, d, e := int64(-99), int64(-99), int64(-99)
+	contOnZero := false
+	if v != nil {
+		for _, iff := range ifsIn(fn) {
+			b, ok := iff.Cond.(*ssa.BinOp)
+			if !ok {
+				continue
+			}
+			if k, isK := constInt(b.Y); isK && b.X == ssa.Value(v) {
+				switch b.Op {
+				case token.GTR:
+					F = k
+				case token.GEQ:
+					F = k - 1
+				}
+			}
+			// zero test on buf[v+e]
+			var ld *ssa.UnOp
+			var other ssa.Value
+			if u, isU := b.X.(*ssa.UnOp); isU {
+				ld, other = u, b.Y
+			} else if u, isU := b.Y.(*ssa.UnOp); isU {
+				ld, other = u, b.X
+			}
+			if ld != nil && (b.Op == token.EQL || b.Op == token.NEQ) {
+				if z, isZ := constInt(other); isZ && z == 0 {
+					if ia, isIA := ld.X.(*ssa.IndexAddr); isIA && ia.X == buf {
+						if ia.Index == ssa.Value(v) {
+							e = 0
+						} else if sb, isS := ia.Index.(*ssa.BinOp); isS && sb.Op == token.SUB && sb.X == ssa.Value(v) {
+							if one, isOne := constInt(sb.Y); isOne {
+								e = -one
+							}
+						}
+						if tb, _, hit := succWhen(iff, "("+ex(ld)+" == 0)"); hit && edgeMustPass(fn, edge{iff.Block(), tb}, dec.Block()) {
+							contOnZero = true
+						}
+					}
+				}
+			}
+		}
+		for _, sl := range results {
+			if sl.X == buf && sl.Low == nil {
+				if sl.High == ssa.Value(v) {
+					d = 0
+				} else if ab, isA := sl.High.(*ssa.BinOp); isA && ab.Op == token.ADD && ab.X == ssa.Value(v) {
+					if one, isOne := constInt(ab.Y); isOne {
+						d = one
+					}
+				}
+			}
+		}
+	}
+	floor = v != nil && F+d == 1
+	zero = v != nil && e == d-1 && contOnZero
+	okRet = d >= 0
+	// the scan starts at the end of the buffer: the loop variable enters the loop as len(buf)-d and from nowhere else
+	// (a preceding coarser scan, e.g. eight bytes at a time, can pass the one-byte floor)
+	if v != nil {
+		for _, ed := range v.Edges {
+			if ed == ssa.Value(dec.(*ssa.BinOp)) {
+				continue
+			}
+			want := "len(" + ex(buf) + ")"
+			if d > 0 {
+				want = fmt.Sprintf("(len(%s) - %d)", ex(buf), d)
+			}
+			if ex(ed) != want {
+				floor = false
+			}
+		}
+	}
+	return floor, zero, okRet
 }
